@@ -29,7 +29,7 @@ func main() {
 	start := fs.Int("start", 0, "")
 	out := fs.String("out", "", "")
 	replay := fs.String("replay", "", "replay file")
-	workers := fs.Int("workers", 0, "")
+	workers := fs.Int("workers", envInt("VERIF_WORKERS", 0), "")
 	fs.Parse(os.Args[3:])
 	seed, err := strconv.ParseUint(*seedS, 10, 64)
 	if err != nil {
@@ -88,6 +88,13 @@ func main() {
 		fmt.Fprintln(os.Stderr, "unknown mode", mode)
 		os.Exit(2)
 	}
+}
+
+func envInt(k string, d int) int {
+	if n, err := strconv.Atoi(os.Getenv(k)); err == nil {
+		return n
+	}
+	return d
 }
 
 func envOr(k, d string) string {
